@@ -4,6 +4,7 @@ mod c06;
 mod c12;
 mod c14;
 mod c15a;
+mod c16;
 mod c19a;
 mod pipe;
 
@@ -14,6 +15,8 @@ fn main() {
         "C06" => c06::run(&args),
         "C14" => c14::run(&args),
         "C15a" => c15a::run(&args),
+        "C16" => c16::run(&args),
+        "C17a" => c16::run_c17a(&args),
         "C19a" => c19a::run(&args),
         "C11pipe" => c01::run(&args, "c11/"),
         "C12pipe" => c01::run(&args, "c12/"),
